@@ -83,6 +83,10 @@ class PySrv(object):
         self.next = 1
         self.bot = 0
         self.users[0] = _U(cfg['botNick'], cfg['botIdent'], cfg['botHost'])
+        self.told = set()           # users whose current hostmask the server has shown to the bot
+        self.modes_synced = set()   # channels (lowered) whose 324 / ban list reached the bot since it joined
+        self.bans_synced = set()
+        self.pending = []           # the bot's unanswered queries, oldest first: ('w'|'m'|'b', channel)
 
     # -- lookups
     def uid(self, nick):
@@ -130,15 +134,40 @@ class PySrv(object):
                 out.append(('M', S, '352', [me, c.name, u.ident, u.host, S, u.nick, st, '0 real name']))
         return out + [('M', S, '315', [me, c.name, 'End of /WHO list.'])]
     def join_burst(self, c):
+        """what a joining client gets without asking: topic (if any) and NAMES"""
         S = self.cfg['server']; me = self.botnick(); out = []
         if c.topic:
             out += [('M', S, '332', [me, c.name, c.topic]), ('M', S, '333', [me, c.name, S, '0'])]
-        out += self.names_reply(c) + self.who_reply(c)
-        out.append(('M', S, '324', [me, c.name, '+' + ''.join(c.modes)] + [v for v in c.modes.values() if v is not None]))
-        out.append(('M', S, '329', [me, c.name, c.created]))
-        out += [('M', S, '367', [me, c.name, m, S, '0']) for m in c.bans]
-        out.append(('M', S, '368', [me, c.name, 'End of channel ban list']))
-        return out
+        return out + self.names_reply(c)
+    def mode_is(self, c):
+        S = self.cfg['server']; me = self.botnick()
+        return [('M', S, '324', [me, c.name, '+' + ''.join(c.modes)] + [v for v in c.modes.values() if v is not None]),
+                ('M', S, '329', [me, c.name, c.created])]
+    def ban_list(self, c):
+        S = self.cfg['server']; me = self.botnick()
+        return [('M', S, '367', [me, c.name, m, S, '0']) for m in c.bans] + [('M', S, '368', [me, c.name, 'End of channel ban list'])]
+    # -- replies to the bot's queries (also usable unsolicited / late)
+    def reply_who(self, name):
+        sc = self.chan(name)
+        if sc is None: return []
+        self.told |= set(sc.members)
+        return self.who_reply(sc)
+    def reply_mode(self, name):
+        sc = self.chan(name)
+        if sc is None: return []
+        if self.bot_in(sc): self.modes_synced.add(low(name))
+        return self.mode_is(sc)
+    def reply_bans(self, name):
+        sc = self.chan(name)
+        if sc is None: return []
+        if self.bot_in(sc): self.bans_synced.add(low(name))
+        return self.ban_list(sc)
+    def enqueue(self, sent):
+        """the server reads what the bot sent: (command, args) pairs"""
+        for cmd, args in sent:
+            if cmd == 'WHO' and len(args) >= 1: self.pending.append(('w', args[0]))
+            elif cmd == 'MODE' and len(args) == 1: self.pending.append(('m', args[0]))
+            elif cmd == 'MODE' and len(args) == 2 and args[1] == '+b': self.pending.append(('b', args[0]))
     def join_args(self, names):
         return [names, '*', 'real name'] if self.cfg['extJoin'] else [names]
 
@@ -211,8 +240,12 @@ class PySrv(object):
                 for c in cs:
                     name = self.enter(i, c)
                     if name is None: continue
+                    sc = self.chan(c)
+                    self.modes_synced.discard(low(c)); self.bans_synced.discard(low(c))
+                    self.told.add(i)
+                    if self.cfg['uhnames']: self.told |= set(sc.members)
                     out.append(('M', u.mask(), 'JOIN', self.join_args(name)))
-                    out += self.join_burst(self.chan(c))
+                    out += self.join_burst(sc)
                 return out
             vis = []
             for c in cs:
@@ -220,7 +253,9 @@ class PySrv(object):
                 seen = sc is not None and self.bot_in(sc)
                 name = self.enter(i, c)
                 if name is not None and seen: vis.append(name)
-            return [('M', u.mask(), 'JOIN', self.join_args(','.join(vis)))] if vis else []
+            if not vis: return []
+            self.told.add(i)
+            return [('M', u.mask(), 'JOIN', self.join_args(','.join(vis)))]
         if k == 'part':
             _, n, cs, reason = a
             i = self.uid(n)
@@ -250,7 +285,7 @@ class PySrv(object):
             i = self.uid(n)
             if i is None or i == self.bot or not valid_text(reason): return []
             u = self.users[i]; vis = self.visible(i)
-            self.drop_everywhere(i); del self.users[i]
+            self.drop_everywhere(i); del self.users[i]; self.told.discard(i)
             return [('M', u.mask(), 'QUIT', [reason])] if vis else []
         if k == 'nick':
             _, n, n2 = a
@@ -261,7 +296,11 @@ class PySrv(object):
             j = self.uid(n2)
             if j is not None and j != i: return []
             mask = u.mask(); u.nick = n2
-            return [('M', mask, 'NICK', [n2])] if (i == self.bot or self.visible(i)) else []
+            if i == self.bot or self.visible(i):
+                self.told.add(i)
+                return [('M', mask, 'NICK', [n2])]
+            self.told.discard(i)
+            return []
         if k == 'mode':
             _, src, c, changes = a
             pfx = self.source(src); sc = self.chan(c)
@@ -283,32 +322,33 @@ class PySrv(object):
         if k == 'chghost':
             _, n, i2, h2 = a
             i = self.uid(n)
-            if i is None or not self.cfg['chghost'] or not valid_word(i2) or not valid_word(h2): return []
-            u = self.users[i]; mask = u.mask(); u.ident = i2; u.host = h2
-            return [('M', mask, 'CHGHOST', [i2, h2])] if (i == self.bot or self.visible(i)) else []
+            if i is None or not valid_word(i2) or not valid_word(h2): return []
+            u = self.users[i]; mask = u.mask()
+            if self.cfg['chghost'] and (i == self.bot or self.visible(i)):
+                u.ident = i2; u.host = h2; self.told.add(i)
+                return [('M', mask, 'CHGHOST', [i2, h2])]
+            if i == self.bot: return []       # without the capability the bot's own host change is not modelled
+            u.ident = i2; u.host = h2; self.told.discard(i)      # nobody tells the bot
+            return []
         if k == 'names':
             sc = self.chan(a[1])
-            return self.names_reply(sc) if sc is not None and self.bot_in(sc) else []
-        if k == 'who':
-            sc = self.chan(a[1])        # the reply to the WHO the bot sends on joining may come after it left again
-            return self.who_reply(sc) if sc is not None else []
-        if k == 'modeis':
-            sc = self.chan(a[1])
-            if sc is None: return []
-            me = self.botnick()
-            return [('M', S, '324', [me, sc.name, '+' + ''.join(sc.modes)] + [v for v in sc.modes.values() if v is not None]),
-                    ('M', S, '329', [me, sc.name, sc.created])]
-        if k == 'banlist':
-            sc = self.chan(a[1])
-            if sc is None: return []
-            me = self.botnick()
-            return [('M', S, '367', [me, sc.name, m, S, '0']) for m in sc.bans] + [('M', S, '368', [me, sc.name, 'End of channel ban list'])]
+            if sc is None or not self.bot_in(sc): return []
+            if self.cfg['uhnames']: self.told |= set(sc.members)
+            return self.names_reply(sc)
+        if k == 'who': return self.reply_who(a[1])          # unsolicited / late
+        if k == 'modeis': return self.reply_mode(a[1])
+        if k == 'banlist': return self.reply_bans(a[1])
+        if k == 'serve':
+            if not self.pending: return []
+            kind, name = self.pending.pop(0)
+            return {'w': self.reply_who, 'm': self.reply_mode, 'b': self.reply_bans}[kind](name)
         if k == 'reconnect':
             n0 = self.cfg['botNick']
             j = self.uid(n0)
             if j is not None and j != self.bot: return []
             self.drop_everywhere(self.bot)
             self.users[self.bot].nick = n0
+            self.told = set(); self.modes_synced = set(); self.bans_synced = set(); self.pending = []
             return [('R',), ('M', S, '001', [n0, 'Welcome'])]
         raise ValueError(a)
 
@@ -323,7 +363,25 @@ class PySrv(object):
                         'b': sorted(set(low(m) for m in c.bans)), 't': c.topic, 'm': dict(c.modes)}
         hosts = {low(u.nick): u.mask() for i, u in self.users.items() if self.visible(i)}
         return {'nick': self.botnick(), 'chans': chans, 'hosts': hosts,
+                'told': {low(self.users[i].nick): self.users[i].mask() for i in self.told},
+                'modes_synced': set(self.modes_synced), 'bans_synced': set(self.bans_synced), 'pending': list(self.pending),
                 'prefix': self.users[self.bot].mask() if any(self.bot in c.members for c in self.chans.values()) else None}
+    def spec_gaps(self):
+        """completeness of the specification itself: once every query of the bot is answered, every channel of the
+        bot is synced and (with chghost negotiated) every visible user's hostmask has been shown to the bot"""
+        out = []
+        pend = set((k, low(c)) for k, c in self.pending)
+        for k, c in self.chans.items():
+            if self.bot not in c.members: continue
+            if k not in self.modes_synced and ('m', k) not in pend: out.append('modes of %s never sent' % k)
+            if k not in self.bans_synced and ('b', k) not in pend: out.append('bans of %s never sent' % k)
+        if self.cfg['chghost']:
+            for i, u in self.users.items():
+                if i in self.told or not self.visible(i): continue
+                shared = [k for k, c in self.chans.items() if self.bot in c.members and i in c.members]
+                if not all(('w', k) in pend for k in shared):
+                    out.append('hostmask of visible %s never shown' % u.nick)
+        return out
 
 def enc_set(xs):
     return ','.join(sorted(wire.enc(x) for x in xs))
@@ -335,7 +393,12 @@ def view_text(v):
                   ';b=' + enc_set(c['b']) + ';t=' + wire.enc(c['t']) + ';m=' +
                   ','.join(sorted(wire.enc(m) + ':' + wire.enc_opt(x) for m, x in c['m'].items())) + ')')
     return ('N=' + wire.enc(v['nick']) + ' C=' + ' '.join(sorted(cs)) + ' H=' +
-            ','.join(sorted(wire.enc(k) + '=' + wire.enc(m) for k, m in v['hosts'].items())))
+            ','.join(sorted(wire.enc(k) + '=' + wire.enc(m) for k, m in v['hosts'].items())) +
+            ' T=' + enc_set(v['told']) + ' MS=' + enc_set(v['modes_synced']) + ' BS=' + enc_set(v['bans_synced']) +
+            ' Q=' + ','.join(k + wire.enc(c) for k, c in v['pending']))
+
+def enc_msgs(ms):
+    return '-' if not ms else ';'.join(wire.enc(c) + ':' + wire.enc_list(a) for c, a in ms)
 
 # ------------------------------------------------------------------------------------------
 # the real bot
@@ -361,18 +424,22 @@ class Real(object):
             raise RuntimeError('reference server emitted an unserialisable message %r' % ((pfx, cmd, args),))
         return m2
     def feed(self, ev, raw=False):
-        """returns the exception level observed: ok / irc-exc / state-exc"""
+        """returns (exception level observed: ok / irc-exc / state-exc, what the bot handed to the driver)"""
         if ev[0] == 'R':
-            self.reset(); return 'ok'
+            self.reset(); return 'ok', []
         del self.logged[:]
         self.irc.feedMsg(self.make(ev[1], ev[2], ev[3], raw=raw))
-        self.irc.queue.reset()
+        sent = []
+        for _ in range(50):
+            m = self.irc.takeMsg()
+            if m is None: break
+            sent.append((m.command, list(m.args)))
         lvl = 'ok'
         for a in self.logged:
             s = (a[0] % a[1:]) if len(a) > 1 else str(a[0])
             if 'IrcState' in s: lvl = 'state-exc'
             elif lvl == 'ok': lvl = 'irc-exc'
-        return lvl
+        return lvl, sent
     def state(self):
         irc = self.irc; st = irc.state
         chans = {}
@@ -401,9 +468,12 @@ class ModeDiff(str):
         return x
 
 def oracle(view, st, multi_prefix=True):
-    """the property statement: the bot's record equals the server's.  returns (list of differences, only_modes).
-    Without multi-prefix a NAMES reply shows only the highest status of a member, so the lower ones cannot be
-    known to any client: halfops / voices are then only required to be a subset of the server's."""
+    """the property statement, as far as the server has told the bot: returns (list of differences, only_modes).
+    * nick, set of channels, users, ops, topic: equal;
+    * halfops / voices: equal with multi-prefix, otherwise (NAMES shows one status per member) a subset of the server's;
+    * modes: equal once the 324 reply reached the bot since it joined, before that a sub-map of the server's;
+      bans: likewise with the ban list;
+    * hostmasks: every user whose current hostmask the server has shown to the bot (and not changed silently since)."""
     diffs = []; modes_only = True
     if st['nick'] != view['nick']:
         diffs.append('irc.nick is %r, the server knows the bot as %r' % (st['nick'], view['nick'])); modes_only = False
@@ -412,16 +482,25 @@ def oracle(view, st, multi_prefix=True):
     for k, vc in view['chans'].items():
         bc = st['chans'].get(k)
         if bc is None: continue
-        for fld, what in (('u', 'users'), ('o', 'ops'), ('h', 'halfops'), ('v', 'voices'), ('b', 'bans'), ('t', 'topic')):
+        for fld, what in (('u', 'users'), ('o', 'ops'), ('h', 'halfops'), ('v', 'voices'), ('t', 'topic')):
             if fld in 'hv' and not multi_prefix and set(bc[fld]) <= set(vc[fld]):
                 continue
             if bc[fld] != vc[fld]:
                 diffs.append('%s of %s: bot has %r, server has %r' % (what, k, bc[fld], vc[fld])); modes_only = False
-        if bc['m'] != vc['m']:
-            diffs.append(ModeDiff('modes of %s: bot has %r, server has %r' % (k, bc['m'], vc['m']), bc['m'], vc['m']))
-    for k, mask in view['hosts'].items():
+        if k in view['bans_synced']:
+            if bc['b'] != vc['b']:
+                diffs.append('bans of %s: bot has %r, server has %r' % (k, bc['b'], vc['b'])); modes_only = False
+        elif not set(bc['b']) <= set(vc['b']):
+            diffs.append('bans of %s (list not sent yet): bot has %r, server has %r' % (k, bc['b'], vc['b'])); modes_only = False
+        if k in view['modes_synced']:
+            if bc['m'] != vc['m']:
+                diffs.append(ModeDiff('modes of %s: bot has %r, server has %r' % (k, bc['m'], vc['m']), bc['m'], vc['m']))
+        elif any(m not in vc['m'] or vc['m'][m] != x for m, x in bc['m'].items()):
+            sub = {m: x for m, x in vc['m'].items() if m in bc['m']}
+            diffs.append(ModeDiff('modes of %s (324 not sent yet): bot has %r, server has %r' % (k, bc['m'], vc['m']), bc['m'], sub))
+    for k, mask in view['told'].items():
         if st['hosts'].get(k) != mask:
-            diffs.append('hostmask of visible nick %s: bot has %r, server has %r' % (k, st['hosts'].get(k), mask)); modes_only = False
+            diffs.append('hostmask of %s (shown to the bot): bot has %r, server has %r' % (k, st['hosts'].get(k), mask)); modes_only = False
     if view['prefix'] is not None and st['prefix'] != view['prefix']:
         diffs.append('irc.prefix is %r, the server knows the bot as %r' % (st['prefix'], view['prefix'])); modes_only = False
     return diffs, modes_only
@@ -447,6 +526,7 @@ def act_line(a):
     if k == 'who': return 'act\twho\t%s' % wire.enc(a[1])
     if k == 'modeis': return 'act\tmodeis\t%s' % wire.enc(a[1])
     if k == 'banlist': return 'act\tbanlist\t%s' % wire.enc(a[1])
+    if k == 'serve': return 'act\tserve'
     if k == 'reconnect': return 'act\treconnect'
     raise ValueError(a)
 
@@ -566,6 +646,8 @@ def gen_action(r, S, findings=False):
         n = r.choice(free) if free and r.random() < 0.9 else r.choice(NICKS + ['bad nick', 'x!y'])
         return ('connect', casevar(r, n) if r.random() < 0.2 else n, r.choice(IDENTS), r.choice(HOSTS))
     botchans = [c for c in S.chans.values() if S.bot in c.members]
+    if S.pending and r.random() < 0.35:
+        return ('serve',)
     if not botchans and x < 0.5:
         return ('join', S.botnick(), [_some_chan(r, S, 0.02) for _ in range(r.choice([1, 1, 2, 3]))])
     x = r.random()
@@ -607,11 +689,13 @@ def gen_action(r, S, findings=False):
         return ('names', _bot_chan(r, S))
     if x < 0.94:
         return ('who', _bot_chan(r, S) if r.random() < 0.7 else _some_chan(r, S))
-    if x < 0.96:
-        # the reply to the MODE query the bot sends on joining; it may arrive after the bot has left again
+    if x < 0.95:
+        # unsolicited replies (the solicited ones are 'serve')
         return ('modeis', _bot_chan(r, S) if r.random() < 0.5 else _some_chan(r, S))
-    if x < 0.975:
+    if x < 0.96:
         return ('banlist', _bot_chan(r, S) if r.random() < 0.5 else _some_chan(r, S))
+    if x < 0.975:
+        return ('serve',)
     return ('reconnect',)
 
 HOSTILE_CMDS = ['JOIN', 'PART', 'KICK', 'QUIT', 'NICK', 'MODE', 'TOPIC', '353', '352', '354', '324', '329', '332', '367',
@@ -647,23 +731,29 @@ def run_history(real, cfg, script, check=True):
     for idx, (what, x) in enumerate(script):
         if what == 'act':
             evs = S.step(x)
-            dumps = []
+            dumps = []; sent_all = []
             for ev in evs:
-                real.feed(ev)
-                dumps.append(dump_text(real.state()))
+                _, sent = real.feed(ev)
+                sent_all += sent
+                dumps.append(dump_text(real.state()) + ' O=' + enc_msgs(sent))
                 tags.add('ev:' + (ev[2] if ev[0] == 'M' else 'reset'))
+            S.enqueue(sent_all)
             nmsgs += len(evs)
             v = S.view()
             impl.append(('|'.join(enc_ev(e) for e in evs) if evs else '-') + '\t' + ('|'.join(dumps) if dumps else '-') + '\t' + view_text(v))
             tags.add('act:' + x[0] + ('' if evs else ':silent'))
+            if sent_all: tags.add('bot-sends:' + '+'.join(sorted(set(c for c, _ in sent_all))))
             if check and not hostile_seen:
                 d, modes_only = oracle(v, real.state(), cfg['multiPrefix'])
+                gaps = S.spec_gaps()
+                if gaps:
+                    d = d + ['reference server incomplete: ' + g for g in gaps]; modes_only = False
                 if d:
                     fails.append((idx, d, modes_only))
         else:
             hostile_seen = True
-            lvl = real.feed(('M',) + tuple(x), raw=True)
-            impl.append(lvl + '\t' + dump_text(real.state()))
+            lvl, sent = real.feed(('M',) + tuple(x), raw=True)
+            impl.append(lvl + '\t' + dump_text(real.state()) + ' O=' + enc_msgs(sent))
             tags.add('raw:' + x[1].upper() + ':' + lvl)
             nmsgs += 1
     return impl, fails, tags, nmsgs
@@ -690,7 +780,12 @@ def gen_script(r, kind, length):
             script.append(('msg', gen_hostile(r, S)))
         else:
             a = gen_action(r, S, findings=fmode)
-            S.step(a)
+            me = S.users[S.bot].mask()
+            for ev in S.step(a):
+                # predict the queries the bot will send (only to steer the generator; the run uses the real ones)
+                if ev[0] == 'M' and ev[2] == 'JOIN' and ev[1] == me:
+                    S.enqueue([('MODE', [ev[3][0]]), ('MODE', [ev[3][0], '+b']), ('WHO', [ev[3][0], '%tuhnairf,1'])])
+                if ev[0] == 'M': me = S.users[S.bot].mask()
             script.append(('act', a))
     return cfg, script
 
